@@ -1,18 +1,23 @@
 """C11 - concurrent senders never corrupt the wire."""
 from .. import threadprop
 
+import hashlib
+
 T = "hello hello hello "
+R = list(hashlib.sha512(b'C11 incompressible block').digest())      # 64 bytes that deflate cannot shrink
 PROGRAMS = [
     ("two-senders", {"compress": False, "threads": {"A": [["send_text", T + "A1"], ["send_text", T + "A2"]], "B": [["send_binary", list((T + "B1").encode())]]}}),
     ("two-compressed-senders", {"compress": True, "threads": {"A": [["send_text", T + "A1"], ["send_text", T + "A2"]], "B": [["send_binary", list((T + "B1").encode())]]}}),
     ("binary-vs-text-compressed", {"compress": True, "threads": {"A": [["send_binary", list((T + "A1").encode())]], "B": [["send_text", T + "B1"], ["send_binary", list((T + "B2").encode())]]}}),
     ("sender-vs-loop", {"compress": True, "threads": {"A": [["send_text", T + "A1"], ["send_text", T + "A2"]], "L": [["loop_pong", [1, 2, 3]], ["loop_autoping"]]}}),
     ("large-frame-vs-small", {"compress": False, "threads": {"A": [["send_binary", [(i * 7) % 251 for i in range(40000)]]], "B": [["send_ping", [1]], ["send_text", "B2"]]}}),
+    # an incompressible message followed by the same bytes again: whatever the compressor has seen, the peer must have seen too
+    ("incompressible-then-repeated", {"compress": True, "threads": {"A": [["send_binary", R], ["send_binary", R + R]], "B": [["send_text", T + "B1"]]}}),
     ("three-senders", {"compress": True, "threads": {"A": [["send_text", T + "A1"]], "B": [["send_binary", list((T + "B1").encode())]], "C": [["send_ping", [9]], ["send_text", T + "C2"]]}}),
 ]
 BQ = {name: 1 for name, _ in PROGRAMS}
-BT = {"large-frame-vs-small": 1, "two-senders": 2, "two-compressed-senders": 2, "binary-vs-text-compressed": 2, "sender-vs-loop": 2, "three-senders": 1}
-RULE = ('every schedule with at most 1-2 pre-emptions (line granularity, stateless exhaustive search) of 5 thread programs (2-3 threads x 1-2 sends each: '
+BT = {"incompressible-then-repeated": 1, "large-frame-vs-small": 1, "two-senders": 2, "two-compressed-senders": 2, "binary-vs-text-compressed": 2, "sender-vs-loop": 2, "three-senders": 1}
+RULE = ('every schedule with at most 1-2 pre-emptions (line granularity, stateless exhaustive search) of 7 thread programs (2-3 threads x 1-2 sends each: '
         'send_text / send_binary / send_ping / the loop\'s pong and auto-ping; with and without negotiated compression, context takeover), every sendall split '
         'in two steps; every schedule with one pre-emption at OPCODE granularity for the two-thread programs; thorough adds 6000 random opcode-granular schedules; non-trivial = distinct (program, wire order, call results)')
 
